@@ -71,6 +71,27 @@ def next_down(b):
     return b - 1 if x > 0 else b + 1
 
 
+def fma_exact(a, b, c):
+    """correctly rounded a*b+c on Python floats (exact rational arithmetic; IEEE signed-zero rules)"""
+    from fractions import Fraction
+    if any(v != v or v in (float("inf"), float("-inf")) for v in (a, b, c)):
+        try:
+            return a * b + c
+        except OverflowError:       # cannot happen for float ops, kept for safety
+            return float("nan")
+    ex = Fraction(a) * Fraction(b) + Fraction(c)
+    if ex == 0:
+        pneg = (math.copysign(1.0, a) < 0) != (math.copysign(1.0, b) < 0)
+        cneg = math.copysign(1.0, c) < 0
+        if c == 0:
+            return -0.0 if (pneg and cneg) else 0.0
+        return 0.0
+    try:
+        return ex.numerator / ex.denominator
+    except OverflowError:
+        return float("inf") if ex > 0 else float("-inf")
+
+
 def ordered_key(b):
     """total order key on non-NaN bit patterns consistent with < on floats (-0 < +0 adjacent)"""
     return b if b < SIGN else -(b - SIGN) - 1
